@@ -93,6 +93,7 @@ const (
 
 type Frame struct {
 	loopHead    map[*ssa.BasicBlock][]Val
+	loopHeld    map[*ssa.BasicBlock]map[string]int // mutexes held when a cut loop was entered
 	fn          *ssa.Function
 	env         map[ssa.Value]Val
 	names       map[string]Val
